@@ -203,6 +203,25 @@ def check_viewnames(ctx):
                 want = [v for v in full if full.index(v) <= full.index(rec(v))]
                 if got != want:
                     ctx.violate("unique views are not exactly the first member of every {view, reciprocal view} class", cj, {"kind": "unique"})
+    # an empty selection of paths has no views (with and without the reciprocity filter); the filter accepts any iterable
+    for u in (False, True):
+        ctx.case(("vn_empty", u), True)
+        try:
+            got0 = ut.make_viewnames([], tfm_unique_only=u)
+        except Exception as e:
+            got0 = e
+        if not (isinstance(got0, list) and got0 == []):
+            ctx.violate(f"make_viewnames([], tfm_unique_only={u}) gives {got0!r} instead of no view", {"op": "make_viewnames", "names": [], "unique": u}, {"kind": "viewnames_empty"})
+    for s_ in sets[:6]:
+        full_ = ut.make_viewnames(s_, tfm_unique_only=False)
+        try:
+            via_iter = ut.filter_unique_views(iter(list(full_)))
+        except Exception as e:
+            via_iter = e
+        ctx.case(("vn_iter", tuple(s_)), True)
+        if via_iter != ut.filter_unique_views(list(full_)) or via_iter != ut.make_viewnames(s_, tfm_unique_only=True):
+            ctx.violate("filter_unique_views gives another answer for a one-shot iterator over the views than for the list of the same views",
+                        {"op": "filter_unique_views", "names": s_}, {"kind": "unique_iterable"})
     for v in ["L-LT", "TL-L", "LLT-T", "T-T", "LT-TL"]:
         tx, rx = v.split("-")
         ctx.case(("recip", v), True)
